@@ -34,6 +34,7 @@ type thread struct {
 	waitRW *RWMutex
 	rwKind int // 1 = wants write lock, 2 = wants read lock
 	waitOn *Once
+	held   bool        // GoHeld: not runnable before Release
 	cond   func() bool // WaitUntil: harness-level blocking condition (must be a //go:norace function)
 	// channel operations (chan.go)
 	chKind    int
@@ -141,7 +142,7 @@ func End() {
 
 //go:norace
 func enabled(t *thread) bool {
-	if t.done {
+	if t.done || t.held {
 		return false
 	}
 	if t.waitWG != nil && t.waitWG.n != 0 {
@@ -305,6 +306,31 @@ func Go(f func()) {
 	endWG.Add(1)
 	go t.run(f)
 	schedule(cur)
+}
+
+// GoHeld spawns a goroutine that cannot run before Release is called, without a scheduling
+// point at the spawn (harness use: start all threads of a test program at once).
+//
+//go:norace
+func GoHeld(f func()) {
+	if !Active {
+		panic("vsync: GoHeld outside a controlled execution")
+	}
+	t := newThread()
+	t.held = true
+	Spawned++
+	endWG.Add(1)
+	go t.run(f)
+}
+
+// Release makes every held goroutine runnable (one scheduling point).
+//
+//go:norace
+func Release() {
+	for _, t := range threads {
+		t.held = false
+	}
+	Point()
 }
 
 //go:norace
